@@ -596,7 +596,8 @@ impl Report
 	{
 		if self.messages.len() > 0
 		{
-			write!(writer, "").unwrap();
+			// A diagnostic that cannot be written cannot be reported either
+			let _ = write!(writer, "");
 		}
 		
 		for msg in &self.messages
@@ -609,7 +610,7 @@ impl Report
 				msg,
 				0);
 				
-			write!(writer, "{}", styler.result).unwrap();
+			let _ = write!(writer, "{}", styler.result);
 		}
 	}
 	
